@@ -7,6 +7,7 @@ import Driver.Load
 import Driver.Build
 import Driver.Reflect
 import Driver.Disas
+import Driver.Lift
 /-!
 Line-protocol driver: evaluates the Lean model's executable definitions on requests read from stdin,
 one response per line. Built as a `lean_exe` (imports nothing outside core/Std).
@@ -42,6 +43,9 @@ def respond (line : String) : String :=
   | some r => r
   | none =>
   match respondDisas ws with
+  | some r => r
+  | none =>
+  match respondLift ws with
   | some r => r
   | none => "bad-request"
 
